@@ -591,3 +591,53 @@ theorem invA_exec (cfg : Cfg) (sched : List Nat) {s : State} (h : InvA cfg s) :
 
 theorem invA_reach (cfg : Cfg) (sched : List Nat) : InvA cfg (exec cfg sched (init cfg)) :=
   invA_exec cfg sched (invA_init cfg)
+
+/-! ## consequences used by the property theorems -/
+
+theorem seen_mem_expected {cfg : Cfg} {s : State} (h : InvA cfg s) {t k : Nat} {r : Res}
+    (hm : Event.seen t k r ∈ s.log) : (k, r) ∈ (cfg.prog t).map (expected cfg) := by
+  rw [← h.results t]
+  exact List.mem_append_left _ (mem_seenBy.mpr hm)
+
+theorem lt_ntasks_of_seen {cfg : Cfg} {s : State} (h : InvA cfg s) {t k : Nat} {r : Res}
+    (hm : Event.seen t k r ∈ s.log) : t < cfg.ntasks := by
+  have := seen_mem_expected h hm
+  by_cases ht : t < cfg.ntasks
+  · exact ht
+  · exfalso
+    have : cfg.prog t = [] := by
+      unfold Cfg.prog Cfg.ntasks at *
+      have : cfg.progs.length ≤ t := by omega
+      simp [List.getD_eq_getElem?_getD, this]
+    simp_all
+
+theorem nonEmpty_started {cfg : Cfg} {s : State} (h : InvA cfg s) (k : Nat)
+    (hne : (s.slot k).nonEmpty = true) :
+    ((List.range cfg.ntasks).any fun t => (begun s t).contains k) = true := by
+  rw [List.any_eq_true]
+  cases hs : s.slot k with
+  | empty => simp [hs, Slot.nonEmpty] at hne
+  | held u =>
+    obtain ⟨n, hn⟩ := h.held_insup k u hs
+    have hu : u < cfg.ntasks := by
+      by_cases hu : u < cfg.ntasks
+      · exact hu
+      · have := h.ghost u (by omega); rw [hn] at this; cases this
+    exact ⟨u, List.mem_range.mpr hu, by simp [begun, hn]⟩
+  | done r =>
+    obtain ⟨u, hu⟩ := h.done_seen k r hs
+    refine ⟨u, List.mem_range.mpr (lt_ntasks_of_seen h hu), ?_⟩
+    simp only [begun, List.contains_eq_mem, List.mem_append, List.mem_map, decide_eq_true_eq]
+    exact Or.inl ⟨(k, r), mem_seenBy.mpr hu, rfl⟩
+
+theorem exists_task_of_key {cfg : Cfg} {k : Nat} (hk : k ∈ allKeys cfg) :
+    ∃ t, t < cfg.ntasks ∧ k ∈ cfg.prog t := by
+  unfold allKeys at hk
+  rw [mem_dedup, List.mem_flatten] at hk
+  obtain ⟨l, hl, hkl⟩ := hk
+  obtain ⟨t, ht, rfl⟩ := List.getElem_of_mem hl
+  refine ⟨t, ht, ?_⟩
+  unfold Cfg.prog
+  simp [List.getD_eq_getElem?_getD, ht, hkl]
+
+end MdModel.Once
